@@ -50,6 +50,23 @@ def physical_to(obj, tol):
     return obj.is_physical(atol_eq_const=tol, atol_ineq_const=tol)
 
 
+def simplex_projection(w):
+    """Euclidean projection of a real vector onto the probability simplex (the closed form QProj!ProjSimplexV states)."""
+    u = np.sort(w)[::-1]
+    css = np.cumsum(u)
+    k = np.nonzero(u * np.arange(1, len(w) + 1) > (css - 1.0))[0][-1]
+    tau = (css[k] - 1.0) / (k + 1.0)
+    return np.maximum(w - tau, 0.0)
+
+
+def nearest_state(lin):
+    """nearest density matrix (Frobenius norm) of a Hermitian matrix: simplex projection of the spectrum in its eigenframe."""
+    X = np.asarray(lin.to_density_matrix())
+    X = (X + X.conj().T) / 2
+    w, V = np.linalg.eigh(X)
+    return (V * simplex_projection(w)) @ V.conj().T
+
+
 def estimate_all(chk, qt, data, tag, expect_var=None, expect_tol=None, case=None, which=None, strict_se=False):
     """runs every constrained estimator on `data`; returns dict name -> estimated_var."""
     from quara.protocol.qtomography.standard.projected_linear_estimator import ProjectedLinearEstimator
@@ -71,6 +88,13 @@ def estimate_all(chk, qt, data, tag, expect_var=None, expect_tol=None, case=None
             pr, _ = quiet(lin.calc_proj_physical)
             if not coords.close(np.asarray(pr.to_var()), out[name], 1e-9):
                 chk.violation("proj_linear_vs_projection:%s" % tag.split("|")[0], "projected linear estimate differs from calc_proj_physical of the linear estimate [%s]" % tag, case)
+            # state tomography, any dimension: the physical projection has a closed form (spectral simplex projection)
+            if type(q).__name__ == "State":
+                want = nearest_state(lin)
+                dev = float(np.max(np.abs(np.asarray(q.to_density_matrix()) - want)))
+                if dev > 2e-5:
+                    chk.violation("proj_linear_not_nearest:%s" % tag.split("|")[0],
+                                  "projected linear estimate differs from the nearest density matrix of the linear estimate by %.3g [%s]" % (dev, tag), case)
         except Exception as e:
             chk.violation("exception:%s:%s" % (name, tag.split("|")[0]), "%r [%s]" % (e, tag), case)
     # the nearest physical point does not depend on the order in which Dykstra's sweeps visit the two constraints
